@@ -23,7 +23,7 @@ def handle (line : String) : String :=
     let body := match fn with
       | "screate" =>
         -- `n` externals of which `strs` are strings (one more allocation each: the value copy)
-        let r := scannerCreate fail (kvNat rest "n" 0) h0
+        let r := scannerCreate fail (List.replicate (kvNat rest "n" 0) false ++ List.replicate (kvNat rest "strs" 0) true) h0
         match r.1 with
         | none => s!"rc=INSUFFICIENT_MEMORY leak={r.2.live.length}"
         | some s => s!"rc=OK leak={(scannerDestroy s r.2).2.live.length}"
